@@ -482,7 +482,7 @@ func (e *Env) GenOp(t *rapid.T) Op {
 	case "sync":
 		return Op{Kind: "sync"}
 	case "probe":
-		return Op{Kind: "probe", N: int64(uni(t, 4096, "probe_at")), Variant: uni(t, 2, "probe_call")}
+		return Op{Kind: "probe", N: int64(uni(t, 4096, "probe_at")), Variant: uni(t, 3, "probe_call")}
 	case "trim":
 		subs := []string{"offset", "count", "age"}
 		if e.Cfg.Single != 0 {
